@@ -239,12 +239,19 @@ def generic(res, pid, prop_v, corr_runs, oracle_prop, what_for, rule, thorough_r
                     res.assumptions.append("oracle hypothesis violated (%s): %s" % (label, hf))
                     oracle_fails.append({"kind": "oracle-hypothesis", "clause": hf, "run": label})
     if oracle_prop:
-        s = orun(res, oracle_prop, thorough)
-        merge_cov(res, s, "oracle-" + oracle_prop)
-        for f in (s.get("oracle_failures") or []):
-            oracle_fails.append(dict(f, run="oracle"))
+        try:
+            s = orun(res, oracle_prop, thorough)
+            merge_cov(res, s, "oracle-" + oracle_prop)
+            for f in (s.get("oracle_failures") or []):
+                oracle_fails.append(dict(f, run="oracle"))
+        except V.Stalled as e:
+            mismatches.append({"kind": "harness-stalled", "run": "oracle-" + oracle_prop, "detail": str(e)})
     for name, args in extra_oracles:
-        s = V.harness(list(args) + ["-seed", str(res.seed)])
+        try:
+            s = V.harness(list(args) + ["-seed", str(res.seed)])
+        except V.Stalled as e:
+            mismatches.append({"kind": "harness-stalled", "run": name, "detail": str(e)})
+            continue
         merge_cov(res, s, name)
         for f in (s.get("oracle_failures") or []):
             oracle_fails.append(dict(f, run=name))
@@ -260,7 +267,18 @@ def generic(res, pid, prop_v, corr_runs, oracle_prop, what_for, rule, thorough_r
     if mismatches:
         found_any = len(res.violations) > 0
         if oracle_prop and not found_any:
-            for m in mismatches[:6]:
+            # a few from every run (the exhaustive token sequences come first and are rarely well nested; the forest and
+            # document runs disagree on inputs the property speaks about)
+            by_run = {}
+            for m in mismatches:
+                by_run.setdefault(m.get("run"), []).append(m)
+            cand = [m for ms in by_run.values() for m in ms[:1]] + [m for ms in by_run.values() for m in ms[1:6]]
+            for m in cand[:18]:
+                if "input_hex" not in m and "element" in m and isinstance(m.get("attrs"), list) and "policy" in m:
+                    # an attribute-level disagreement: the same tag as a one-tag document
+                    esc = lambda v: v.replace("&", "&amp;").replace('"', "&quot;")
+                    doc = "<" + m["element"] + "".join(' %s="%s"' % (a.get("Key", ""), esc(a.get("Val", ""))) for a in m["attrs"]) + ">t"
+                    m = dict(m, input_hex=doc.encode("utf-8", "surrogateescape").hex())
                 if "input_hex" in m and "policy" in m:
                     s = V.harness(["oracle", "-prop", oracle_prop, "-input", m["input_hex"], "-policy", json.dumps(m["policy"])])
                     for f in (s.get("oracle_failures") or []):
@@ -385,11 +403,12 @@ def c03(res):
 
 @check("C10")
 def c10(res):
-    return generic(res, "C10", "Properties/C10.v", [("corr-style", ["style"]), FN, ATTRS("general")], None,
+    return generic(res, "C10", "Properties/C10.v", [("corr-style", ["style"]), FN, ATTRS("general")], "C10",
                    "sanitizeStyles, removeUnicode and the style routing of sanitizeAttrs",
                    "theorems over the model of sanitizeStyles with douceur as an oracle; tie: VerifSanitizeStyles / VerifRemoveUnicode vs the extracted model on style strings "
                    "(mixed allowed/disallowed declarations, vendor prefixes incl. stacked, upper case, numeric and character escapes, !important, comments, malformed tails) x rule sets in "
-                   "all three scopes with handler / enum / regexp / default matchers; non-trivial = style strings of which something is kept",
+                   "all three scopes with handler / enum / regexp / default matchers; oracle: the style attribute of single-tag documents judged against the harness's own reading of the "
+                   "rule set (declarations split by douceur, escaped values not judged), elements allowed by explicit entry / pattern / both; non-trivial = style strings of which something is kept",
                    thorough_runs=[("corr-style", ["style", "-n", "3000"]), FN, ATTRS_T("general")])
 
 
